@@ -3,14 +3,18 @@ import copy, random
 from .. import core, gen, ref
 from . import cu
 
-MODULES = ['DsdVerif.Props.C07']
-GEN_FILES = ['PyExprs']
+MODULES = ['DsdVerif.Props.C07', 'DsdVerif.Props.PyFuncs']
+GEN_FILES = ['PyExprs', 'PyFuncs']
 THEOREMS = []          # filled below from THEOREM_NAMES that exist in Props/C07.lean
 THEOREM_NAMES = ['rotateOnce_pairs', 'rotateOnce_single', 'rotateOnce_strands', 'rotate_period', 'rotatePtOnce_spec',
                  'rotationsPt_length', 'wrap_eq_emod', 'rotateOnce_pairtable', 'rotatePtOnce_inverts',
                  'connected_rotation_invariant']
 THEOREMS = ['Dsd.C07.' + t for t in THEOREM_NAMES] + ['Dsd.PyExprs.py_wrap_eq_model', 'Dsd.PyExprs.py_wrap_spec',
-                                                         'Dsd.PyExprs.py_rotate_pairtable_loc_eq']
+                                                         'Dsd.PyExprs.py_rotate_pairtable_loc_eq',
+                                                         # rotate_complex_once as written in the source (Gen/PyFuncs.lean)
+                                                         'Dsd.PyFuncs.py_rotate_complex_once_eq', 'Dsd.PyFuncs.py_rotate_single',
+                                                         'Dsd.PyFuncs.py_rotate_pairs', 'Dsd.PyFuncs.py_rotate_error_kind',
+                                                         'Dsd.PyFuncs.py_rotate_short_structure_faults']
 ASSUMPTIONS = [
     'rotate_complex_once / rotate_complex_pt are hand-modelled (Model/Complex.lean: rotateOnce, rotatePtOnce, rotationsPt) and tied '
     'to the code by the correspondence streams rot1 / rotpt',
@@ -25,7 +29,8 @@ MANIFEST = {
             'pair-table generator, wrap_eq_emod; all for structures of any size. Tied to rotate_complex_once / rotate_complex_pt by '
             'exhaustive correspondence over every well-formed structure up to a bounded size; the generators, the object methods '
             'rotate()/rotate_pt(), rotate_pairtable_loc and input immutability are checked on the real code by an independent '
-            'label-transport oracle.',
+            'label-transport oracle.'
+            ' STATEMENT LEVEL, FROM THE SOURCE: rotate_complex_once is transcribed statement by statement from the working tree (Gen/PyFuncs.lean, translator/pyfunc.py) and proved equal to the model for all sequence / structure pairs of equal length (py_rotate_complex_once_eq), so rotateOnce_pairs holds of the code as written (py_rotate_pairs); for unequal lengths the transcription, unlike the net-effect model, raises IndexError like the code (py_rotate_short_structure_faults, and the source-derived stream on mismatched inputs).',
     'note': 'wrap and ComplexS.rotate_pairtable_loc are TRANSLATED from the source on every run (Gen/PyExprs.lean) and proved equal to the '
             'model\'s wrap / rotLoc (py_wrap_eq_model, py_rotate_pairtable_loc_eq); '
             'trusted base as in DESIGN.md section 3.',
@@ -245,6 +250,7 @@ def run(res, proof):
         core.compare_streams(res, 'complex_utils.rotation', lines, impl, model)
     except core.DriverBroken as e:
         proof.problem('driver', str(e))
+    cu.source_derived_stream(res, proof, 'complex_utils.rotation.source-derived', ops, impl)
     for op in ops[::max(1, len(ops) // 8)]:
         res.sample('\t'.join(op))
 
